@@ -88,7 +88,27 @@ class Script:
         self.subs = {}              # step -> list of accepted sub-increment records
 
 
-def run_history(case, ntime=None, script=None):
+class DirectDriver:
+    """drives PythonTubeSolver.solve step by step the way the upstream structural tests do: the state
+    comes from `init_state(tube, mat)` WITHOUT a time index, so its temperature field starts at zero
+    and each step has to take its start temperature from the tube's history"""
+
+    def __init__(self, tube, solver, mat):
+        self.tube, self.solver = tube, solver
+        solver.setup_tube(tube)
+        self.state_n = solver.init_state(tube, mat)
+        solver.dump_state(tube, 0, self.state_n)
+
+    def force_and_stiffness(self, i, d):
+        self.state_np1 = self.solver.solve(self.tube, i, self.state_n, d)
+        return self.state_np1.force, self.state_np1.stiffness
+
+    def update_state(self, i):
+        self.solver.dump_state(self.tube, i, self.state_np1)
+        self.state_n = self.state_np1
+
+
+def run_history(case, ntime=None, script=None, direct=False):
     """run the real TubeSpring/PythonTubeSolver over the history; returns dict of results"""
     from srlife import structural, spring
     tube = make_tube(case, ntime)
@@ -124,7 +144,7 @@ def run_history(case, ntime=None, script=None):
         setattr(structural, n, mk(saved[n]))
     out = dict(force=[], stiffness=[], sym=[], tube=tube, solver=solver)
     try:
-        sp = spring.TubeSpring(tube, solver, mat)
+        sp = DirectDriver(tube, solver, mat) if direct else spring.TubeSpring(tube, solver, mat)
         out["T0q"] = np.copy(sp.state_n.temperature)
         nt_ = len(tube.times)
         for i in range(1, nt_):
@@ -293,6 +313,23 @@ def eval_case(kind, case):
             return check_book(case, res)
         if kind == "free":
             return eval_free(case)
+        if kind == "direct":
+            # per-step API driven from a fresh state without time index: thermal strain must still be
+            # alpha * (T(t_i) - T(t_0)) of the tube's temperature history
+            res = run_history(case, direct=True)
+            bad = []
+            q = res["q"]
+            for i in range(1, q["temperature"].shape[0]):
+                th = six(q, "thermal_strain", i)
+                want = ALPHA_CONST * (res["Tq_nodal"][i] - res["Tq_nodal"][0])
+                e = float(np.max(np.abs(th[0] - want)))
+                if not e <= 1e-12:
+                    bad.append(("direct-const-cte", "time %d (state from init_state without time index): |thermal - alpha*(T-T0)| = %.3e" % (i, e)))
+                tot, me = six(q, "strain", i), six(q, "mechanical_strain", i)
+                e = max(float(np.max(np.abs(tot[c] - (me[c] + th[c])))) for c in range(6))
+                if not e <= 1e-12:
+                    bad.append(("direct-partition", "time %d: |strain-(mech+thermal)| = %.3e" % (i, e)))
+            return bad, {}
         if kind == "causal":
             full = run_history(case)
             bad = []
@@ -660,6 +697,8 @@ def run(ctx):
                 # the same with forced sub-division: partition etc. for every step sub-division
                 if ndim < 3 or not quick:
                     explore("book", dict(case, solver={"max_divide": 2, "force_divide": True}), "book-divided/%dD/%s" % (ndim, mat))
+        # per-step API from a fresh state created without a time index (as the upstream tests drive it)
+        explore("direct", gen_case(rng, ndim, "Econst"), "direct/%dD/Econst" % ndim)
         # free expansion
         for mat in ["Econst", "316H/elastic_model"] + creep_mats[:1]:
             case = gen_case(rng, ndim, mat, uniform=True)
